@@ -1,7 +1,7 @@
 (* Property C04 - programs accepted by analysis are safe to evaluate. *)
 From Coq Require Import List ZArith Bool Permutation.
-From MV Require Import Datalog.Syntax Datalog.Interp Datalog.Solve Analysis.RuleCheck Analysis.Declarative
-  Analysis.RuleCheckProofs.
+From MV Require Import Datalog.Syntax Datalog.Interp Datalog.Solve Datalog.Lfp Analysis.RuleCheck Analysis.Declarative
+  Analysis.RuleCheckProofs Analysis.WildcardProofs Analysis.SafeEvalProofs.
 Import ListNotations.
 Open Scope Z_scope.
 
@@ -120,3 +120,91 @@ Example unsafe_rejected_hyps :
 Proof.
   vm_compute. split; [intros [H|[]]; discriminate|]. split; [right; left; reflexivity|left; reflexivity].
 Qed.
+
+(* ---- unsafe_rejected, on the clause AS WRITTEN (before RewriteClause and ReplaceWildcards). If a
+   named variable x occurs in no positive atom and in no equality of the body (nothing can give it
+   a value), and x is a head variable that the let-transform does not define, or an operand of a
+   comparison or of an inequality, or occurs in a non-wildcard argument of a negated atom, then
+   analysis rejects the clause. (needs p p x = x is needed by premise p: see RuleCheckProofs.needs.) *)
+Theorem unsafe_rejected :
+  forall (c : clause) (x : Z),
+  x <> wild ->
+  ~ In x (flat_map binder_vars (cbody c)) ->
+  (In x (atom_vars (chead c)) /\ ~ In x (let_defs c)) \/ (exists p, In p (cbody c) /\ needs p p x) ->
+  accepted c = false.
+Proof. exact unsafe_rejected_orig. Qed.
+Print Assumptions unsafe_rejected.
+
+Example unsafe_rejected_orig_hyps :
+  (1 <> wild) /\ ~ In 1 (flat_map binder_vars (cbody f3b))
+  /\ In (PNeg (mkAtom 3 [v 1])) (cbody f3b) /\ needs (PNeg (mkAtom 3 [v 1])) (PNeg (mkAtom 3 [v 1])) 1.
+Proof.
+  vm_compute. split; [discriminate|]. split; [intros [H|[]]; discriminate|].
+  split; [right; left; reflexivity|left; reflexivity].
+Qed.
+
+(* ---- accepted_no_unbound_error. C01's engine model returns None for every Go error. For a clause
+   CheckRule accepts (alias-free: the engine model has no variable-variable aliasing; and outside
+   the recorded finding N61: function applications inside positive atoms use only variables that
+   already have a value - atom_apps_bound), on EVERY store and delta selection: if the
+   left-to-right join fails, then it fails at some premise p under some partial solution s (a
+   solution of the premises before p) with a value_error: a function application inside p whose
+   arguments all evaluated to constants was rejected by eval_fn (wrong type, division by zero,
+   unknown function), or p is a comparison of two constants that eval_cmp rejects (not both
+   numbers). In particular evaluation never fails because a variable has no value inside a
+   function application, a comparison, an inequality or a negated atom. *)
+Theorem accepted_no_unbound_error :
+  forall (cr : clause) (Sneg : list fact) (sel : nat -> list fact),
+  check cr = true -> alias_free cr = true -> atom_apps_bound cr = true ->
+  solve Sneg sel 0 (cbody (replace_wildcards cr)) [[]] = None ->
+  exists (j : nat) (p : premise) (s : subst),
+    nth_error (cbody (replace_wildcards cr)) j = Some p /\
+    sat (fun f => In f Sneg) sel 0 (firstn j (cbody (replace_wildcards cr))) [] s /\
+    ((exists t, In t (premise_terms p) /\ fn_error s t) \/
+     (exists op l r a b, p = PCmp op l r /\ eval_term s l = Some (VConst a) /\
+                         eval_term s r = Some (VConst b) /\ eval_cmp op a b = None)).
+Proof. exact accepted_no_unbound_error_lemma. Qed.
+Print Assumptions accepted_no_unbound_error.
+
+(* the hypotheses are satisfiable together, with a genuine run-time error: p0(X) :- p1(Y), X = fn:div(Y, 0). *)
+Definition divz := mkClause (mkAtom 0 [v 0])
+  [PAtom (mkAtom 1 [v 1]); PEq (v 0) (TApp FDiv [v 1; TConst (num 0)])] [].
+Example accepted_no_unbound_error_hyps :
+  check (rewrite divz) = true /\ alias_free (rewrite divz) = true /\ atom_apps_bound (rewrite divz) = true /\
+  solve [] (fun _ => [(1, [num 4])]) 0 (cbody (replace_wildcards (rewrite divz))) [[]] = None.
+Proof. vm_compute. repeat split; reflexivity. Qed.
+(* and the hypothesis atom_apps_bound cannot be dropped: finding N61 *)
+Definition n61 := mkClause (mkAtom 0 [v 0]) [PAtom (mkAtom 1 [TApp FPlus [v 0; TConst (num 1)]])] [].
+Example n61_accepted_unbound :
+  accepted n61 = true /\ alias_free (rewrite n61) = true /\ atom_apps_bound (rewrite n61) = false /\
+  solve [] (fun _ => [(1, [num 4])]) 0 (cbody (replace_wildcards (rewrite n61))) [[]] = None.
+Proof. vm_compute. repeat split; reflexivity. Qed.
+
+(* ---- accepted_head_ground. With C01's fact type a derived fact is ground by construction; what
+   the model can do instead is fail in emit_head (a head variable without a value is an error
+   there). For an accepted alias-free clause - outside the recorded findings N64 (a let-statement
+   uses a variable defined by a later or the same statement: let_ordered) and N65 (a function
+   application in the head uses a let-variable: head_apps_ok) - every solution of the join yields
+   a head fact, unless a function application in the head or in a let-statement was rejected by
+   eval_fn on ground arguments. *)
+Theorem accepted_head_ground :
+  forall (cr : clause) (Sneg : list fact) (sel : nat -> list fact) (sols : list subst),
+  check cr = true -> alias_free cr = true -> head_apps_ok cr = true -> let_ordered cr = true ->
+  solve Sneg sel 0 (cbody (replace_wildcards cr)) [[]] = Some sols ->
+  forall s, In s sols ->
+  (exists f, emit_head cr s = Some f)
+  \/ (exists t, In t (aargs (chead cr)) /\ fn_error s t)
+  \/ (exists j x t s', nth_error (clet cr) j = Some (x, t) /\
+                        run_let s (firstn j (clet cr)) = Some s' /\ fn_error s' t).
+Proof. exact accepted_head_ground_lemma. Qed.
+Print Assumptions accepted_head_ground.
+
+(* p0(X, fn:plus(Y,1)) :- p1(Y) |> let Z = fn:mult(Y,2), let X = fn:plus(Z,1). *)
+Definition letc := mkClause (mkAtom 0 [v 0; TApp FPlus [v 1; TConst (num 1)]])
+  [PAtom (mkAtom 1 [v 1])] [(2, TApp FMult [v 1; TConst (num 2)]); (0, TApp FPlus [v 2; TConst (num 1)])].
+Example accepted_head_ground_hyps :
+  check (rewrite letc) = true /\ alias_free (rewrite letc) = true /\ head_apps_ok (rewrite letc) = true /\
+  let_ordered (rewrite letc) = true /\
+  solve [] (fun _ => [(1, [num 4])]) 0 (cbody (replace_wildcards (rewrite letc))) [[]] = Some [[(1, num 4)]] /\
+  emit_head (rewrite letc) [(1, num 4)] = Some (0, [num 9; num 5]).
+Proof. vm_compute. repeat split; reflexivity. Qed.
